@@ -1190,6 +1190,18 @@ def fold_const_switches(j, facts):
         if t['k'] != 'switch':
             continue
         o = single_origin(trace_operand(tmp, t['discr'], through_calls=set()))
+        if o is not None and o.kind == 'discr' and not o.proj:
+            # `match direction { ShiftDirection::Left => .. }` where `direction` is a helper's parameter bound, at this inlined
+            # call site, to a unit variant of a field-less enum of the crate
+            so = single_origin(trace_operand(tmp, {'k': 'copy', 'pl': o.data[2]['pl']}, through_calls=set()))
+            if so is not None and so.kind == 'agg' and not so.proj and so.data[2].get('agg') == 'adt' and not so.data[2].get('ops') and so.data[2].get('vi') is not None:
+                adt = facts.adt_by_name.get(so.data[2].get('adt'))
+                if adt is not None and adt.get('kind') == 'Enum' and all(not vv['fields'] for vv in adt['variants']) and not any(vv.get('explicit_discr') for vv in adt['variants']):
+                    v = so.data[2]['vi']
+                    hit = [tb for val, tb in t['targets'] if val == v]
+                    j['blocks'][b]['term'] = {'k': 'goto', 'target': hit[0] if hit else t['otherwise']}
+                    n += 1
+            continue
         if o is None or o.proj or o.kind != 'const' or not isinstance(o.data, dict) or o.data.get('int') is None:
             continue
         v = o.data['int']
